@@ -17,7 +17,7 @@ EXTENDS ErrSystem, TLC, Json
 TraceLog == ndJsonDeserialize("trace.ndjson")
 
 VARIABLE l
-tvars == <<slots, net, reg, l>>
+tvars == <<slots, net, reg, taint, l>>
 
 D == Deviations
 
@@ -57,8 +57,42 @@ AccDiff(ra, ma) ==
   {f \in AccFields : ra[f] # ma[f]} \cup (IF SeqToSet(ra.keys) # ma.keys THEN {"keys"} ELSE {})
 RAccDiff(ra, rb) == {f \in AccFields \cup {"keys"} : ra[f] # rb[f]}
 
+\* ---- outputs declared PII-free; redactable renderings (C03, C06, C12)
+\* marker stream: 1 = open, 2 = close, 3 = newline.  Balanced, never nested,
+\* balanced within every line.
+WellFormed(m) ==
+  LET F[i \in 0..Len(m)] ==
+        IF i = 0 THEN 0
+        ELSE LET d == F[i-1] IN
+             IF d < 0 THEN -1
+             ELSE CASE m[i] = 1 -> IF d = 0 THEN 1 ELSE -1
+                    [] m[i] = 2 -> IF d = 1 THEN 0 ELSE -1
+                    [] OTHER    -> IF d = 0 THEN 0 ELSE -1
+  IN F[Len(m)] = 0
+
+Renderings == {"rv", "rpv", "rs"}
+ReportOuts(ev, v, tn) ==
+  LET x == ev.obs.outs
+      uo == tn.u \ tn.s                     \* words that entered through unsafe channels only
+      leakR == {r \in Renderings \cup {"rq", "rx"} : SeqToSet(x[r].out) \cap uo # {}}
+      leakO == {f \in {"redacted", "safe", "wirerp", "report"} : SeqToSet(x[f]) \cap uo # {}}
+      words == UNION ({SeqToSet(x[r].out) \cap uo : r \in Renderings \cup {"rq", "rx"}}
+                      \cup {SeqToSet(x[f]) \cap uo : f \in {"redacted", "safe", "wirerp", "report"}})
+  IN
+  /\ IF leakR \cup leakO = {} THEN TRUE
+     ELSE MisS(ev, "leak", "verdict", {"C03"}, leakR \cup leakO, {}, words)
+  /\ LET bad == {r \in Renderings : ~WellFormed(x[r].m)} IN
+     IF bad = {} THEN TRUE ELSE MisS(ev, "markers", "verdict", {"C06"}, bad, {}, [r \in bad |-> x[r].m])
+  \* congruence with the plain rendering: for regular strings (C06's quantifier)
+  /\ LET bad == IF tn.mk \/ tn.h THEN {} ELSE {r \in Renderings : ~x[r].cong} IN
+     IF bad = {} THEN TRUE ELSE MisS(ev, "congruence", "verdict", {"C06"}, bad, {}, bad)
+  /\ LET bad == {r \in {"rq", "rx"} : ~x[r].bang} IN
+     IF bad = {} THEN TRUE ELSE MisS(ev, "refusal", "verdict", {"C06"}, bad, {}, bad)
+  /\ LET miss == IF HeldAtU(v) THEN {} ELSE tn.r \ (SeqToSet(x.report) \cup SeqToSet(x.safe)) IN
+     Chk(miss = {}, ev, "retained", "verdict", {"C12"}, {}, miss)
+
 \* ---- constructor steps: recorded vs ideal (= model: constructors have no deviation)
-ReportBuild(ev, new) ==
+ReportBuild(ev, new, tn) ==
   LET st == ev.step
       v == new[st.dst]
       o == ev.obs
@@ -67,12 +101,19 @@ ReportBuild(ev, new) ==
   /\ Chk(o.nil = IsNil(v), ev, "nil", "verdict", {"C10"}, IsNil(v), o.nil)
   /\ IF o.nil \/ IsNil(v) THEN TRUE
      ELSE
-     /\ Chk(RSkel(o.tree) = MSkel(v), ev, "skel", "verdict", PropsFor({"C10"}, v), MSkel(v), RSkel(o.tree))
-     /\ Chk(o.tree = TreeOf(v, reg), ev, "tree", "conf", {}, TreeOf(v, reg), o.tree)
-     /\ LET d == AccDiff(o.acc, Acc(v)) IN
-        Chk(d = {}, ev, "acc", "verdict", PropsFor({"C19"}, v), [f \in d |-> Acc(v)[f]], [f \in d |-> o.acc[f]])
-     /\ LET spec == IsSpecVec(v, new, reg) IN
-        Chk(o.is = spec, ev, "is", "verdict", PropsFor({"C08"}, v), spec, o.is)
+     /\ ReportOuts(ev, v, tn)
+     \* text is predicted for regular strings only (C10); otherwise conformance
+     /\ IF tn.h \/ tn.dv THEN TRUE
+        ELSE Chk(RSkel(o.tree) = MSkel(v), ev, "skel", "verdict", PropsFor({"C10"}, v), MSkel(v), RSkel(o.tree))
+     /\ IF tn.h \/ tn.dv THEN TRUE ELSE Chk(o.tree = TreeOf(v, reg), ev, "tree", "conf", {}, TreeOf(v, reg), o.tree)
+     \* (values are predicted for regular strings; for hostile strings only the
+     \* predicates of ReportOuts and the relations of ReportHop give verdicts)
+     /\ IF tn.h \/ tn.dv THEN TRUE
+        ELSE LET d == AccDiff(o.acc, Acc(v)) IN
+             Chk(d = {}, ev, "acc", "verdict", PropsFor({"C19"}, v), [f \in d |-> Acc(v)[f]], [f \in d |-> o.acc[f]])
+     /\ IF tn.h \/ tn.dv THEN TRUE
+        ELSE LET spec == IsSpecVec(v, new, reg) IN
+             Chk(o.is = spec, ev, "is", "verdict", PropsFor({"C08"}, v), spec, o.is)
      \* IsAny is the disjunction; Is(nil, r) is r == nil
      /\ LET any == IF \E i \in 1..Len(o.is) : o.is[i] = "T" THEN "T" ELSE "F"
             want == [any |-> any, none |-> "F", nilL |-> "F", nilR |-> "F", nilnil |-> "T", anyNil |-> "F"]
@@ -109,7 +150,7 @@ RevOK(pre, post, ex) ==
 
 \* ---- hops: relational verdicts on the two recorded observations, conformance
 \* of the received value against the model
-ReportHop(ev, base, new) ==
+ReportHop(ev, base, new, tn) ==
   LET st == ev.step
       v == new[st.dst]
       o == ev.obs
@@ -123,10 +164,11 @@ ReportHop(ev, base, new) ==
   /\ Chk(o.nil = IsNil(v), ev, "nil", "conf", {}, IsNil(v), o.nil)
   /\ IF o.nil \/ IsNil(v) \/ p.nil THEN TRUE
      ELSE
-     /\ LET sites == DiffSites(p.tree, o.tree) IN
+     /\ ReportOuts(ev, v, tn)
+     /\ LET sites == IF tn.h \/ tn.dv THEN {} ELSE DiffSites(p.tree, o.tree) IN
         IF sites = {} THEN TRUE
         ELSE MisS(ev, "hop.skel", "verdict", PropsFor({PT}, v), sites, RSkel(p.tree), RSkel(o.tree))
-     /\ Chk(o.tree = TreeOf(v, reg), ev, "tree", "conf", {}, TreeOf(v, reg), o.tree)
+     /\ IF tn.h \/ tn.dv THEN TRUE ELSE Chk(o.tree = TreeOf(v, reg), ev, "tree", "conf", {}, TreeOf(v, reg), o.tree)
      \* type names are kept (the family / extension of every layer)
      /\ Chk(FamTree(o.tree) = FamTree(p.tree), ev, "hop.fam", "verdict", {PT, "C02"}, FamTree(p.tree), FamTree(o.tree))
      \* annotations: kept between knowing processes (an unknowing process cannot
@@ -148,7 +190,7 @@ ReportHop(ev, base, new) ==
             \* the text of some layer changed in transfer: identity follows the text
             txt == {"text:" \o x : x \in DiffSites(p.tree, o.tree)}
         IN IF bad = {} THEN TRUE
-           ELSE MisS(ev, "hop.is", "verdict", {"C02"},
+           ELSE MisS(ev, "hop.is", IF tn.h \/ tn.dv THEN "conf" ELSE "verdict", IF tn.h \/ tn.dv THEN {} ELSE {"C02"},
                      IF txt # {} THEN txt ELSE {Cause(j) : j \in bad}, p.is, o.is)
      /\ LET ex == IdExempt(base, st.dst, base[st.src[1]])
             refs == VisNodes(v)
@@ -166,7 +208,7 @@ ReportHop(ev, base, new) ==
                               ELSE IF markOpaque THEN "markopaque" ELSE "other"
             txt == {"text:" \o x : x \in DiffSites(p.tree, o.tree)}
         IN IF bad = {} THEN TRUE
-           ELSE MisS(ev, "hop.isrev", "verdict", {"C02"},
+           ELSE MisS(ev, "hop.isrev", IF tn.h \/ tn.dv THEN "conf" ELSE "verdict", IF tn.h \/ tn.dv THEN {} ELSE {"C02"},
                      IF txt # {} THEN txt ELSE {Cause(jk) : jk \in bad}, p.isrev, o.isrev)
      \* no drift: from the first hop on, re-encoding reproduces the message received
      \* (exactly between knowing processes from the second hop on; otherwise up to the
@@ -189,9 +231,11 @@ ReportHop(ev, base, new) ==
      \* via an unknowing process = directly
      /\ LET bad == {f \in {"viaTree", "viaAcc", "viaIs", "viaVerbose", "viaSafe"} : ~o.hop[f]} IN
         Chk(bad = {}, ev, "hop.via", "verdict", {"C04"}, {}, bad)
-     /\ LET d == AccDiff(o.acc, Acc(v)) IN
-        Chk(d = {}, ev, "acc", "conf", {}, [f \in d |-> Acc(v)[f]], [f \in d |-> o.acc[f]])
-     /\ LET code == IsVec(v, base, reg, D) IN Chk(o.is = code, ev, "is", "conf", {}, code, o.is)
+     /\ IF tn.h \/ tn.dv THEN TRUE
+        ELSE LET d == AccDiff(o.acc, Acc(v)) IN
+             Chk(d = {}, ev, "acc", "conf", {}, [f \in d |-> Acc(v)[f]], [f \in d |-> o.acc[f]])
+     /\ IF tn.h \/ tn.dv THEN TRUE
+        ELSE LET code == IsVec(v, base, reg, D) IN Chk(o.is = code, ev, "is", "conf", {}, code, o.is)
 
 \* ---- decoding is total (C05): a non-nil error, no panic in DecodeError nor in
 \* any observer applied to the result
@@ -208,12 +252,18 @@ TNext ==
   /\ LET ev == TraceLog[l]
          st == ev.step
          base == IF ev.first THEN [i \in 1..NSlots |-> Nil] ELSE slots
+         tbase == IF ev.first THEN [i \in 1..NSlots |-> NoTaint] ELSE taint
          new == [base EXCEPT ![st.dst] = Build(st, base, reg)]
+         tn == TaintOf(st, base, tbase, new[st.dst])
+         \* a hop whose recorded text diverges (reported as hop.skel) suspends predictions
+         diverged == /\ st.op = "Hop" /\ ~ev.obs.nil /\ ~ev.pre.nil /\ ~tn.h
+                     /\ DiffSites(ev.pre.tree, ev.obs.tree) # {}
      IN /\ Enabled(st, base)
         /\ slots' = new
-        /\ IF st.op = "Hop" THEN ReportHop(ev, base, new)
+        /\ taint' = [tbase EXCEPT ![st.dst] = [tn EXCEPT !.dv = tn.dv \/ diverged]]
+        /\ IF st.op = "Hop" THEN ReportHop(ev, base, new, tn)
            ELSE IF st.op \in {"DecodeFault", "DecodeFuzz"} THEN ReportFault(ev)
-           ELSE ReportBuild(ev, new)
+           ELSE ReportBuild(ev, new, tn)
   /\ l' = l + 1
   /\ UNCHANGED <<net, reg>>
 
